@@ -239,17 +239,20 @@ impl Interpreter {
                 state.stack.push_bytes(x3)
             }
             OpCodes::OP_CAT => {
-                let mut x1 = state.stack.pop_bytes()?;
                 let x2 = state.stack.pop_bytes()?;
+                let mut x1 = state.stack.pop_bytes()?;
 
                 x1.extend_from_slice(&x2);
 
                 state.stack.push_bytes(x1)
             }
             OpCodes::OP_SPLIT => {
-                let x = state.stack.pop_bytes()?;
                 let n = state.stack.pop_number()?;
+                let x = state.stack.pop_bytes()?;
 
+                if n < 0 || n as usize > x.len() {
+                    return Err(InterpreterError::InvalidStackOperation("OP_SPLIT position is out of range"));
+                }
                 let (x1, x2) = x.split_at(n as usize);
                 state.stack.push_bytes(x1.to_vec());
                 state.stack.push_bytes(x2.to_vec());
@@ -352,8 +355,8 @@ impl Interpreter {
                 state.stack.push_bigint(a + b)?;
             }
             OpCodes::OP_SUB => {
-                let a = state.stack.pop_bigint()?;
                 let b = state.stack.pop_bigint()?;
+                let a = state.stack.pop_bigint()?;
 
                 state.stack.push_bigint(a - b)?;
             }
@@ -364,14 +367,14 @@ impl Interpreter {
                 state.stack.push_bigint(a * b)?;
             }
             OpCodes::OP_DIV => {
-                let a = state.stack.pop_bigint()?;
                 let b = state.stack.pop_bigint()?;
+                let a = state.stack.pop_bigint()?;
 
                 state.stack.push_bigint(a / b)?;
             }
             OpCodes::OP_MOD => {
-                let a = state.stack.pop_bigint()?;
                 let b = state.stack.pop_bigint()?;
+                let a = state.stack.pop_bigint()?;
 
                 state.stack.push_bigint(a % b)?;
             }
@@ -418,26 +421,26 @@ impl Interpreter {
                 state.stack.push_bool(a != b)?;
             }
             OpCodes::OP_LESSTHAN => {
-                let a = state.stack.pop_bigint()?;
                 let b = state.stack.pop_bigint()?;
+                let a = state.stack.pop_bigint()?;
 
                 state.stack.push_bool(a < b)?;
             }
             OpCodes::OP_LESSTHANOREQUAL => {
-                let a = state.stack.pop_bigint()?;
                 let b = state.stack.pop_bigint()?;
+                let a = state.stack.pop_bigint()?;
 
                 state.stack.push_bool(a <= b)?;
             }
             OpCodes::OP_GREATERTHAN => {
-                let a = state.stack.pop_bigint()?;
                 let b = state.stack.pop_bigint()?;
+                let a = state.stack.pop_bigint()?;
 
                 state.stack.push_bool(a > b)?;
             }
             OpCodes::OP_GREATERTHANOREQUAL => {
-                let a = state.stack.pop_bigint()?;
                 let b = state.stack.pop_bigint()?;
+                let a = state.stack.pop_bigint()?;
 
                 state.stack.push_bool(a >= b)?;
             }
